@@ -53,7 +53,7 @@ vars == <<inp, pc, n2b, slice, bx, order, k, atoms, inters, medges, gattr, added
 (* deviation flag settings *)
 NoDev == [unsorted |-> FALSE, firstKeeps |-> FALSE, sliceAny |-> FALSE, offByOne |-> FALSE, renumber |-> FALSE,
           keepRemoved |-> FALSE, firstFragUnshifted |-> FALSE, treeEdges |-> FALSE, dedupKey |-> FALSE,
-          exMax |-> FALSE, exTagLost |-> FALSE, exCutoff |-> FALSE, modAnyRes |-> FALSE, versionInKey |-> FALSE, fragIdOrder |-> FALSE, modAnyName |-> FALSE]
+          exMax |-> FALSE, exTagLost |-> FALSE, exCutoff |-> FALSE, modAnyRes |-> FALSE, versionInKey |-> FALSE, fragIdOrder |-> FALSE, modAnyName |-> FALSE, explicitAfterExcl |-> FALSE]
 DevUnsorted == [NoDev EXCEPT !.unsorted = TRUE]
 DevFirstKeeps == [NoDev EXCEPT !.firstKeeps = TRUE]
 DevSliceAny == [NoDev EXCEPT !.sliceAny = TRUE]
@@ -68,6 +68,7 @@ DevExTagLost == [NoDev EXCEPT !.exTagLost = TRUE]
 DevExCutoff == [NoDev EXCEPT !.exCutoff = TRUE]
 DevModAnyRes == [NoDev EXCEPT !.modAnyRes = TRUE]
 DevModAnyName == [NoDev EXCEPT !.modAnyName = TRUE]
+DevExplicitAfterExcl == [NoDev EXCEPT !.explicitAfterExcl = TRUE]
 \* what the tree currently does: the open findings switched on (known_findings.d)
 DevVersionInKey == [NoDev EXCEPT !.versionInKey = TRUE]
 DevF32 == [NoDev EXCEPT !.fragIdOrder = TRUE]
@@ -173,11 +174,14 @@ DomOK(I) ==
        \A i \in Pos(I) :
          IF IsFrag(I, i)
          THEN /\ Cardinality(L.comp[i]) % L.nres[i] = 0
-              \* a copy occupies consecutive residue ids and its residues carry the block's residue names
+              \* a copy occupies consecutive residue ids (the residue names inside the block need not be those of the graph nodes:
+              \* the atoms keep the names the block gives them)
               /\ \A j \in 0..(L.nres[i] - 1) : L.first[i] + j \in L.comp[i] /\ L.loc[L.first[i] + j] = j + 1
-              /\ \A a \in DOMAIN L.blk[i].atoms : L.blk[i].atoms[a].res = L.loc[i] => L.blk[i].atoms[a].rn = I.rn[i]
          ELSE L.nres[i] = 1
   /\ BlocksOK(I.F)
+  \* an explicit (by_atom_id) link names two different atoms of the molecule
+  /\ \A li \in DOMAIN FL(I) : FL(I)[li].kind = "explicit" =>
+        FL(I)[li].ex[1] # FL(I)[li].ex[2] /\ \A j \in 1..2 : FL(I)[li].ex[j] \in 1..Len(PBase(I).atoms)
 
 (* ---- applicable links (kept minimal: the link rule itself is C02, spec/Links.tla) ---- *)
 OrdOK(o, i, j) == IF o = "+" THEN j = i + 1 ELSE IF o = ">" THEN j > i ELSE i = j
@@ -217,6 +221,11 @@ Key(x) == <<x.sec, x.at, x.ver>>
 Touches(x, S) == \E j \in DOMAIN x.at : x.at[j] \in S
 RenumIdx(g, R) == g - Cardinality({r \in R : r < g})
 Renum(x, R) == [x EXCEPT !.at = TLCEval([j \in DOMAIN x.at |-> RenumIdx(x.at[j], R)])]
+\* explicit links ([ molmeta ] by_atom_id true): applied to the atoms with the written numbers whatever the residues are; the
+\* interaction replaces an untagged one on the same atoms, else it is added; its atoms become bonded in the molecule graph
+ExplLinks(I) == IF I.useApps THEN <<>> ELSE SelectSeq(FL(I), LAMBDA l : l.kind = "explicit")
+ExplInter(l) == [sec |-> l.sec, at |-> l.ex, par |-> l.par, ver |-> "i1", occ |-> 1]
+ExplHits(I, x) == \E j \in DOMAIN ExplLinks(I) : LET l == ExplLinks(I)[j] IN x.sec = l.sec /\ x.at = l.ex /\ x.ver = "i1"
 LinkEdges(apps) == UNION {{{apps[j].ints[x].at[1], apps[j].ints[x].at[2]} : x \in {y \in DOMAIN apps[j].ints : apps[j].ints[y].sec \in EdgeSections}} : j \in DOMAIN apps}
 
 \* which modifications are selected: an explicit -mods list, or the protein termini by default
@@ -246,7 +255,8 @@ PFinalB(I, B, apps) ==
       lwin == {p \in lints : ~\E o \in lints : PairLess(p, o) /\ Key(apps[o[1]].ints[o[2]]) = Key(apps[p[1]].ints[p[2]])}
       all == {x \in B.inters : Key(x) \notin lkeys} \cup {apps[p[1]].ints[p[2]] : p \in lwin}
       after == TLCEval([g \in 1..nA |-> afterLinks(g)])
-      kept == {x \in all : ~Touches(x, R)}
+      kept0 == {x \in all : ~Touches(x, R)}
+      kept == {x \in kept0 : ~ExplHits(I, x)} \cup {ExplInter(ExplLinks(I)[j]) : j \in DOMAIN ExplLinks(I)}
       \* modifications: only the atoms a selected modification names, in its target residue
       sel == ModSel(I)
       elig == {s \in DOMAIN sel : ModEligible(I, sel[s])}
@@ -449,15 +459,20 @@ ApplyLinks ==
          d2 == IF Dev.keepRemoved THEN d1 ELSE SelectSeq(d1, LAMBDA x : ~Touches(x, R) /\ ~verHit(x))
          \* finding F7 (repaired): relabel_and_redo_res_graph renumbers all residue ids from 0
          A2 == TLCEval(IF Dev.renumber /\ R # {} THEN [g \in DOMAIN A1 |-> [A1[g] EXCEPT !.resid = @ - I.start]] ELSE A1)
-         E2 == {e \in medges \cup LinkEdges(apps) : e \cap R = {}}
-         gen == {p \in Generated(A2, E2, molN) : p \cap R = {}}
+         \* explicit links: add_or_replace_interaction + edges, before expand_excl (seed3-C14-2: after it = Dev.explicitAfterExcl)
+         xl == ExplLinks(I)
+         xerr == \E j \in DOMAIN xl : \E a \in 1..2 : xl[j].ex[a] \in R \/ xl[j].ex[a] > Len(atoms)
+         d3 == SelectSeq(d2, LAMBDA x : ~ExplHits(I, x)) \o [j \in DOMAIN xl |-> ExplInter(xl[j])]
+         E1 == {e \in medges \cup LinkEdges(apps) : e \cap R = {}}
+         E2 == E1 \cup {{xl[j].ex[1], xl[j].ex[2]} : j \in DOMAIN xl}
+         gen == {p \in Generated(A2, IF Dev.explicitAfterExcl THEN E1 ELSE E2, molN) : p \cap R = {}}
          genSeq == SetToSeq(gen)
-     IN IF idxErr THEN /\ err' = "index" /\ pc' = "done" /\ UNCHANGED <<atoms, inters, medges, gattr, removed, fired>>
+     IN IF idxErr \/ xerr THEN /\ err' = (IF idxErr THEN "index" ELSE "explicit") /\ pc' = "done" /\ UNCHANGED <<atoms, inters, medges, gattr, removed, fired>>
         ELSE /\ atoms' = A2
              /\ removed' = R
              /\ medges' = E2
              /\ gattr' = [i \in Pos(I) |-> gattr[i] \ R]
-             /\ inters' = d2 \o [x \in DOMAIN genSeq |-> LET p == genSeq[x]  a == CHOOSE a \in p : \A o \in p : a <= o IN
+             /\ inters' = d3 \o [x \in DOMAIN genSeq |-> LET p == genSeq[x]  a == CHOOSE a \in p : \A o \in p : a <= o IN
                                     [sec |-> "exclusions", at |-> <<a, CHOOSE o \in p : o # a>>, par |-> <<>>, ver |-> "gen", occ |-> 1]]
              /\ fired' = (IF Dev.dedupKey /\ Len(d0) # Len(inters) THEN fired \cup {"F30"} ELSE fired)
                           \cup (IF \E j \in DOMAIN d1 : verHit(d1[j]) /\ ~Touches(d1[j], R) THEN {"removed-node-key-equals-version"} ELSE {})
